@@ -149,7 +149,8 @@ func runRecv(c RecvCase) *evid.Failure {
 	if (p.ISS + 1 + uint32(c.Stream)) < p.ISS+1 {
 		evid.Label("raw-recv:crossed_2^32")
 	}
-	if straddle || ooo || dupOverlap {
+	wrapCrossed := (p.ISS+1+uint32(c.Stream)) < p.ISS+1 || (p.ISS+1 < 1<<31 && p.ISS+1+uint32(c.Stream) >= 1<<31)
+	if (!forceWrap && (straddle || ooo || dupOverlap)) || (forceWrap && wrapCrossed) {
 		evid.NonTrivialKey("recv", fmt.Sprintf("%+v", c))
 		evid.Sample("raw-recv", c)
 	}
@@ -174,6 +175,9 @@ func genRecv(rt *rapid.T) RecvCase {
 	c.Stream = rapid.OneOf(rapid.IntRange(1, 40), rapid.IntRange(1, max)).Draw(rt, "stream")
 	k := uint32(rapid.IntRange(0, c.Stream+2).Draw(rt, "iss_k"))
 	c.ISS = rapid.OneOf(rapid.Uint32(), rapid.Just(uint32(0)-k), rapid.Just(uint32(1<<31)-k)).Draw(rt, "iss")
+	if forceWrap {
+		c.ISS = rapid.OneOf(rapid.Just(uint32(0)-k), rapid.Just(uint32(1<<31)-k)).Draw(rt, "iss_wrap")
+	}
 	n := rapid.IntRange(1, 14).Draw(rt, "nsegs")
 	for i := 0; i < n; i++ {
 		off := rapid.IntRange(0, c.Stream-1).Draw(rt, "off")
@@ -407,7 +411,8 @@ func runSend(c SendCase) *evid.Failure {
 	if splits > 0 {
 		evid.Label("raw-send:split-segments")
 	}
-	if partialAcks+ignored+zeroWnd+splits > 0 {
+	sendCrossed := c.PlaceISS && p.IRS == c.StackISS && (p.IRS+1+uint32(c.Data) < p.IRS+1 || (p.IRS+1 < 1<<31 && p.IRS+1+uint32(c.Data) >= 1<<31))
+	if (!forceWrap && partialAcks+ignored+zeroWnd+splits > 0) || (forceWrap && sendCrossed) {
 		evid.NonTrivialKey("send", fmt.Sprintf("%+v", c))
 		evid.Sample("raw-send", c)
 	}
@@ -431,7 +436,7 @@ func genSend(rt *rapid.T) SendCase {
 	}
 	c.PeerISS = rapid.Uint32().Draw(rt, "peer_iss")
 	c.DataSeed = rapid.Uint64().Draw(rt, "seed")
-	if rapid.Bool().Draw(rt, "place") {
+	if forceWrap || rapid.Bool().Draw(rt, "place") {
 		c.PlaceISS = true
 		c.StackISS = wrapNear(rt, "stack", c.Data)
 	}
